@@ -63,7 +63,7 @@ pub fn check_dyn(c: &super::c07::DynCase) -> Verdict {
         Ok(x) => x,
         Err(p) => {
             let msg = crate::engine::panic_message(&p);
-            if msg.contains("entered unreachable code: BytesEnd") && c.script.has_early_stop() {
+            if super::c07::is_f10_panic(&msg, &c.script) {
                 return Verdict::excluded("known finding F10 of C07 (visitor stops early, End event at unreachable!)");
             }
             return Verdict::fail(format!("panic: {} | script {:?} | input {:?}", msg, c.script, c.input));
